@@ -48,6 +48,10 @@ pub struct ProcCase {
 	pub files: Vec<FileSpec>,
 	pub stdin: Option<Vec<u8>>,
 	pub stdin_plan: Option<ReadPlan>,
+	/// Bytes that precede the input in the regular file behind fd 0 and that an earlier
+	/// reader of the descriptor (a shell `read`, a parent process) has already consumed:
+	/// xt inherits the descriptor positioned behind them.
+	pub stdin_skip: usize,
 	pub wsched: Sched,
 	pub wfail: Option<(usize, i32)>,
 	pub weintr: Vec<u32>,
@@ -87,6 +91,7 @@ impl ProcCase {
 			"files": self.files.iter().map(|f| json!({"name": f.name, "kind": f.kind, "hex": hex(&f.bytes), "preview": crate::scenario::preview(&f.bytes, 80), "plan": rp_to_json(&f.plan)})).collect::<Vec<_>>(),
 			"stdin": self.stdin.as_ref().map(|b| hex(b)),
 			"stdin_plan": rp_to_json(&self.stdin_plan),
+			"stdin_skip": self.stdin_skip,
 			"out": {"sched": crate::scenario::sched_to_json(&self.wsched), "fail": self.wfail.map(|(a, e)| json!([a, e])), "eintr": self.weintr},
 			"tty": self.tty,
 			"nommap": self.nommap,
@@ -105,6 +110,7 @@ impl ProcCase {
 			files,
 			stdin: j["stdin"].as_str().and_then(unhex),
 			stdin_plan: rp_from_json(&j["stdin_plan"]),
+			stdin_skip: j["stdin_skip"].as_u64().unwrap_or(0) as usize,
 			wsched: crate::scenario::sched_from_json(&j["out"]["sched"]).unwrap_or_default(),
 			wfail: j["out"]["fail"].as_array().map(|a| (a[0].as_u64().unwrap_or(0) as usize, a[1].as_i64().unwrap_or(5) as i32)),
 			weintr: j["out"]["eintr"].as_array().map(|a| a.iter().filter_map(|x| x.as_u64().map(|v| v as u32)).collect()).unwrap_or_default(),
@@ -232,12 +238,21 @@ pub fn run(case: &ProcCase) -> ProcOutcome {
 	let log_path = format!("{dir}/log");
 	let _ = std::fs::write(&plan_path, plan);
 	let stdin_path = format!("{dir}/stdin.bin");
-	let _ = std::fs::write(&stdin_path, case.stdin.as_deref().unwrap_or(&[]));
+	{
+		// "consumed" prefix: a header line of the kind a shell loop reads before handing over
+		let mut content: Vec<u8> = b"# header consumed by the caller: {\"not\": [\"for xt\"]}\n".iter().copied().cycle().take(case.stdin_skip).collect();
+		content.extend_from_slice(case.stdin.as_deref().unwrap_or(&[]));
+		let _ = std::fs::write(&stdin_path, content);
+	}
 	let (out_path, err_path) = (format!("{dir}/stdout.bin"), format!("{dir}/stderr.bin"));
 	let open = |p: &str| std::fs::File::create(p);
-	let (Ok(fo), Ok(fe), Ok(fi)) = (open(&out_path), open(&err_path), std::fs::File::open(&stdin_path)) else {
+	let (Ok(fo), Ok(fe), Ok(mut fi)) = (open(&out_path), open(&err_path), std::fs::File::open(&stdin_path)) else {
 		return ProcOutcome { spawn_error: Some("cannot open stdio files".into()), ..Default::default() };
 	};
+	if case.stdin_skip > 0 {
+		use std::io::Seek;
+		let _ = fi.seek(std::io::SeekFrom::Start(case.stdin_skip as u64));
+	}
 	let mut cmd = Command::new(bin_path(&case.bin));
 	cmd.arg0("xt").args(&case.args).current_dir(&work).env_clear().env("LD_PRELOAD", format!("{BUILD_DIR}/libxtsim_io.so")).env("XTSIM_PLAN", &plan_path).env("XTSIM_LOG", &log_path).env("LC_ALL", "C").stdin(Stdio::from(fi)).stdout(Stdio::from(fo)).stderr(Stdio::from(fe));
 	// SAFETY: only async-signal-safe libc calls between fork and exec.
